@@ -352,7 +352,17 @@ func RecoverySuite(seed uint64, tier string, res *report.Result, nomodel bool, c
 		if it < 2 {
 			res.Sample(map[string]any{"cfg": cfg.Line(), "failure_free_final": baseFinal.Runs, "actions": len(baseRec)})
 		}
+		found := 0
 		try := func(f fault, label string) error {
+			if found >= 3 {
+				return nil // this workflow has shown enough failing placements; move on to the next one
+			}
+			before := len(res.Violations)
+			defer func() {
+				if len(res.Violations) > before {
+					found++
+				}
+			}()
 			_, fin, viols, ok, err := exec(baseRec, &f)
 			if err != nil {
 				return fmt.Errorf("history %d (%s) fault %s: %w", it, cfg.Line(), label, err)
